@@ -7,6 +7,7 @@ import (
 	"go/token"
 	"go/types"
 	"sort"
+	"strconv"
 	"strings"
 
 	"golang.org/x/tools/go/ssa"
@@ -80,11 +81,15 @@ func performsAlters(fn *ssa.Function, depth int) (n int, allChecked bool) {
 var ruleA6 = &Rule{
 	ID:    "A6",
 	Floor: 12,
-	Doc: "retention (SSA, interprocedural): in every live function of ctrl/ that records an applied setting (calls putSetting): it reads the recorded value with getSetting under the same (type, name); a comparison of the recorded value with the value putSetting records exists and from its `equal` edge neither an ALTER nor putSetting can be reached; " +
+	Doc: "retention (SSA, interprocedural): in every live function of ctrl/ that records an applied setting (calls the routine that runs `INSERT INTO settings`, whatever it is called): it reads the recorded value with the routine that queries the settings table, under the same (type, name); a comparison of the recorded value with the value putSetting records exists and from its `equal` edge neither an ALTER nor putSetting can be reached; " +
 		"every ALTER — a driver Exec whose statement text is an ALTER, in the function itself or in a helper it calls — sits in a loop, lets its error leave (in the helper and at the helper's call site), and from its failure edge putSetting cannot be reached; putSetting is not in that loop; the value recorded is also interpolated into / bound to the ALTER (possibly through the helper's parameters)",
 	Run: func(c *Ctx) []Obl {
 		var obls []Obl
 		found := 0
+		putFn, getFn := c.settingsFns()
+		if putFn == nil || getFn == nil {
+			return []Obl{{Key: "settings read / write routines", Pos: "-", Status: Undecided, Msg: "no function of ctrl/ runs `INSERT INTO settings` / reads the settings table"}}
+		}
 		for _, fn := range moduleFuncs(c.CG()) {
 			if isTestFunc(c, fn) || !strings.HasPrefix(fnPkgRel(fn), "ctrl") {
 				continue
@@ -93,13 +98,12 @@ var ruleA6 = &Rule{
 			for _, b := range fn.Blocks {
 				for _, ins := range b.Instrs {
 					if call, ok := ins.(*ssa.Call); ok {
-						if sc := call.Common().StaticCallee(); sc != nil && fnPkgRel(sc) == "ctrl/qryn/maintenance" {
-							switch sc.Name() {
-							case "putSetting":
-								put = call
-							case "getSetting":
-								get = call
-							}
+						switch call.Common().StaticCallee() {
+						case nil:
+						case putFn:
+							put = call
+						case getFn:
+							get = call
 						}
 					}
 				}
@@ -126,10 +130,14 @@ var ruleA6 = &Rule{
 				add("guard", false, put.Pos(), "no getSetting call to compare the recorded value with")
 				continue
 			}
-			// (type, name): putSetting(db, tp, name, value) / getSetting(db, dist, tp, name)
-			pa, ga := put.Common().Args, get.Common().Args
+			// (type, name): the string arguments of the write routine are (type, name, value), those of the read routine (type, name)
+			pa := append([]ssa.Value{nil}, stringArgs(put)...)
+			ga := append([]ssa.Value{nil, nil}, stringArgs(get)...)
 			sameV := func(a, b ssa.Value) bool {
 				if a == b {
+					return true
+				}
+				if sameExpr(a, b, 0) {
 					return true
 				}
 				sa, ok1 := constStr(a)
@@ -196,7 +204,7 @@ var ruleA6 = &Rule{
 			for _, b := range fn.Blocks {
 				for _, ins := range b.Instrs {
 					if call, ok := ins.(*ssa.Call); ok {
-						if sc := call.Common().StaticCallee(); sc != nil && isModuleFn(sc) && sc.Name() != "putSetting" && sc.Name() != "getSetting" {
+						if sc := call.Common().StaticCallee(); sc != nil && isModuleFn(sc) && sc != putFn && sc != getFn {
 							if n, _ := performsAlters(sc, 0); n > 0 {
 								sites = append(sites, site{call, "ALTERs in " + sc.Name(), sc})
 							}
@@ -352,7 +360,8 @@ var ruleC6 = &Rule{
 							for _, side := range []ssa.Value{a, bv} {
 								dependsOnValue(side, func(x ssa.Value) bool {
 									if p, ok := x.(*ssa.Parameter); ok {
-										if nt := namedOf(p.Type()); nt != nil && nt.Obj().Name() == "Duration" {
+										// the minimum is a plain number (a time.Duration or a count of seconds); the policy is a struct / slice element
+										if bt, ok := p.Type().Underlying().(*types.Basic); ok && bt.Info()&types.IsNumeric != 0 {
 											pMin = p
 											return true
 										}
@@ -412,13 +421,67 @@ var ruleC6 = &Rule{
 						label = s
 					}
 				}
+				nm = secondsRoot(nm)
+				judge := func(label string, sexpr string, secs int64) {
+					want := int64(60)
+					if strings.TrimSpace(sexpr) == "date" {
+						want = 86400
+					}
+					key := fmt.Sprintf("%s %s(%s) minimum", ssaName(site.Parent()), fr.fn.Name(), label)
+					if seen[key] {
+						return
+					}
+					seen[key] = true
+					if secs == want {
+						obls = append(obls, Obl{Key: key, Pos: c.pos(site.Pos()), Status: OK, Msg: fmt.Sprintf("expr=%q min=%ds", sexpr, secs)})
+					} else {
+						obls = append(obls, Obl{Key: key, Pos: c.pos(site.Pos()), Status: Violation,
+							Msg: fmt.Sprintf("insert-time expression %q is clamped with a minimum of %ds, expected %ds: a TTL on the date column cannot move data earlier than one day, one on the timestamp not earlier than one minute", sexpr, secs, want)})
+					}
+				}
+				// both are fields of one row of a constant table: one instance per row
+				if bm, fm, ok1 := fieldOfRow(nm); ok1 {
+					if be, fe, ok2 := fieldOfRow(ne); ok2 && (bm == be || sameAddr(bm, be, 0)) {
+						if rows := c.rowSource(bm, 0); rows != nil {
+							for _, row := range rows {
+								lbl := ""
+								var fns []string
+								for k := range row {
+									fns = append(fns, k)
+								}
+								sort.Strings(fns)
+								for _, k := range fns {
+									v := row[k]
+									if k != fe && k != fm && v != "" && !strings.ContainsAny(v, " (") {
+										if _, err := strconv.ParseInt(v, 10, 64); err != nil {
+											lbl = v
+										}
+									}
+								}
+								n, err := strconv.ParseInt(row[fm], 10, 64)
+								if _, has := row[fe]; !has || err != nil {
+									obls = append(obls, Obl{Key: fmt.Sprintf("%s %s(%s) minimum", ssaName(site.Parent()), fr.fn.Name(), lbl), Pos: c.pos(site.Pos()), Status: Undecided, Msg: "table row without a constant minimum / expression"})
+									continue
+								}
+								if isDurationType(nm.Type()) {
+									n /= 1000000000
+								}
+								judge(lbl, row[fe], n)
+							}
+							continue
+						}
+					}
+				}
 				kmin, okMinConst := nm.(*ssa.Const)
 				sexpr, okExprConst := constStr(ne)
 				if okMinConst && okExprConst {
 					secs := int64(0)
 					if kmin.Value != nil {
 						if n, ok := int64Of(kmin); ok {
-							secs = n / 1000000000
+							secs = n
+							if isDurationType(kmin.Type()) {
+								secs = n / 1000000000
+							}
 						}
 					}
 					want := int64(60)
@@ -446,7 +509,6 @@ var ruleC6 = &Rule{
 }
 
 func init() { register(ruleA6, ruleC6) }
-
 
 // sameExpr: two SSA values are the same pure expression over the same leaves (Go's SSA form does no common-subexpression elimination).
 func sameExpr(a, b ssa.Value, d int) bool {
@@ -496,4 +558,48 @@ func sameExpr(a, b ssa.Value, d int) bool {
 		return true
 	}
 	return false
+}
+
+// secondsRoot strips conversions and `(time.Duration).Seconds()` from a value: what remains is either a duration or a number of seconds.
+func secondsRoot(v ssa.Value) ssa.Value {
+	for i := 0; i < 8; i++ {
+		switch x := v.(type) {
+		case *ssa.Convert:
+			if isDurationType(x.Type()) && !isDurationType(x.X.Type()) {
+				return v
+			}
+			v = x.X
+			continue
+		case *ssa.ChangeType:
+			v = x.X
+			continue
+		case *ssa.Call:
+			if sc := x.Common().StaticCallee(); sc != nil && sc.String() == "(time.Duration).Seconds" && len(x.Common().Args) == 1 {
+				v = x.Common().Args[0]
+				continue
+			}
+		}
+		break
+	}
+	return v
+}
+
+func isDurationType(t types.Type) bool {
+	nt := namedOf(t)
+	return nt != nil && nt.Obj().Name() == "Duration" && nt.Obj().Pkg() != nil && nt.Obj().Pkg().Path() == "time"
+}
+
+// fieldOfRow: the value reads a field of a struct value; returns the struct (value or address) and the field's name.
+func fieldOfRow(v ssa.Value) (ssa.Value, string, bool) {
+	switch x := v.(type) {
+	case *ssa.Field:
+		return x.X, fieldNameOf(x.X.Type(), x.Field), true
+	case *ssa.UnOp:
+		if x.Op == token.MUL {
+			if fa, ok := x.X.(*ssa.FieldAddr); ok {
+				return fa.X, fieldNameOf(fa.X.Type(), fa.Field), true
+			}
+		}
+	}
+	return nil, "", false
 }
